@@ -118,6 +118,12 @@ macro_rules! trs3 {
                 let m3 = <$M3>::from_cols_array(&core::array::from_fn(|k| exact[k / 3][k % 3] as $S));
                 let mt = <$A3>::from_mat3_translation(m3, t).to_cols_array();
                 let m3c = m3.to_cols_array();
+                // the 4x4 form: linear block, translation column, homogeneous row (0, 0, 0, 1)
+                let m4t = <$M4>::from_mat3_translation(m3, t).to_cols_array();
+                let want4: [$S; 16] = [m3c[0], m3c[1], m3c[2], 0.0, m3c[3], m3c[4], m3c[5], 0.0, m3c[6], m3c[7], m3c[8], 0.0, t.x, t.y, t.z, 1.0];
+                if (0..16).any(|k| m4t[k].to_bits() != want4[k].to_bits()) {
+                    if c.wants_witness("structure", &["Mat4::from_mat3_translation"]) { c.violation("structure", &["Mat4::from_mat3_translation"], inp(), format!("{:?}", m4t), format!("{:?}", want4), "linear part, translation and last row must be stored unchanged".into()); } else { c.st.violations += 1; }
+                }
                 if (0..9).any(|k| mt[k].to_bits() != m3c[k].to_bits()) || mt[9].to_bits() != t.x.to_bits() || mt[10].to_bits() != t.y.to_bits() || mt[11].to_bits() != t.z.to_bits() {
                     c.violation("structure", &["from_mat3_translation"], inp(), format!("{:?}", mt), String::new(), "linear part and translation must be stored unchanged".into());
                 }
